@@ -139,13 +139,13 @@ def run(ctx):
                         need=("replies", "accept_D", "accept_R"))
         n = differential(ctx, "dq", "S_t1d", nb=350, per=1, max_inst=1, max_pw=2, emit_mod=20, stray=1)
     else:
-        st = R.standard(ctx, [R.Plan("qr", "S_q1", emit_mod=15, max_inst=2, max_pw=1, stray=2),
-                              R.Plan("qr3", "S_t1d", emit_mod=6, max_inst=3, max_pw=1, stray=2),
+        st = R.standard(ctx, [R.Plan("qr", "S_q1", emit_mod=60, max_inst=2, max_pw=1, stray=2),
+                              R.Plan("qr3", "S_t1d", emit_mod=20, max_inst=3, max_pw=1, stray=2),
                               R.Plan("two", "S_t1d", emit_mod=40, ids="Ids2", max_inst=1, max_pw=0, pw_on=False, stray=1)], OWN,
                         need=("replies", "accept_D", "accept_R"))
-        n = differential(ctx, "dq", "S_t1d", nb=3000, per=2, max_inst=2, max_pw=1, emit_mod=2, stray=1)
-        n += differential(ctx, "dq1", "S_q1", nb=4000, per=2, max_inst=2, max_pw=1, emit_mod=40, stray=1)
-        n += differential(ctx, "dc", "S_t1c", nb=3000, per=2, max_inst=1, max_pw=2, emit_mod=60, stray=0)
+        n = differential(ctx, "dq", "S_t1d", nb=1500, per=2, max_inst=2, max_pw=1, emit_mod=4, stray=1)
+        n += differential(ctx, "dq1", "S_q1", nb=1500, per=2, max_inst=2, max_pw=1, emit_mod=80, stray=1)
+        n += differential(ctx, "dc", "S_t1c", nb=1500, per=2, max_inst=1, max_pw=2, emit_mod=120, stray=0)
 
 
 def replay(ctx, body):
